@@ -27,6 +27,27 @@ type Step struct {
 	// Invalid marks an invocation that is invalid by its arguments alone (decided by
 	// the generator, never from the error text).
 	Invalid bool `json:"invalid,omitempty"`
+	// Sub: a composite step (Op "seq"): harness actions and commands executed as one
+	// edge; only its last command is judged.
+	Sub []Step `json:"sub,omitempty"`
+}
+
+func Seq(sub ...Step) Step { return Step{Op: "seq", Sub: sub} }
+
+// flatten expands composite steps.
+func flatten(steps []Step) []Step {
+	var out []Step
+	for _, s := range steps {
+		if s.Op == "seq" {
+			for _, x := range flatten(s.Sub) {
+				x.Tags = append(append([]string{}, x.Tags...), s.Tags...)
+				out = append(out, x)
+			}
+		} else {
+			out = append(out, s)
+		}
+	}
+	return out
 }
 
 func Run(args ...string) Step           { return Step{Op: "run", Args: args} }
@@ -52,6 +73,8 @@ func (s Step) String() string {
 			pre = strings.Join(s.Env, " ") + " "
 		}
 		return pre + "goit " + strings.Join(q, " ")
+	case "seq":
+		return traceString(s.Sub)
 	case "write":
 		return fmt.Sprintf("write %s (%d bytes %q)", shQuote(s.Path), len(s.Data), trunc(string(s.Data), 24))
 	default:
@@ -60,6 +83,9 @@ func (s Step) String() string {
 }
 
 func (s Step) Cmd() string {
+	if s.Op == "seq" && len(s.Sub) > 0 {
+		return s.Sub[len(s.Sub)-1].Cmd()
+	}
 	if s.Op == "run" && len(s.Args) > 0 {
 		return s.Args[0]
 	}
@@ -166,7 +192,7 @@ func (n *Node) Trace() []Step {
 	for i := range rev {
 		out[i] = rev[len(rev)-1-i]
 	}
-	return out
+	return flatten(out)
 }
 
 type Seed struct {
@@ -309,7 +335,7 @@ func (x *Explorer) fullTrace(n *Node, st *Step) []Step {
 	if st != nil {
 		t = append(t, *st)
 	}
-	return t
+	return flatten(t)
 }
 
 func (x *Explorer) parallel(n int, f func(c *Ctx, i int)) {
@@ -387,8 +413,30 @@ func (x *Explorer) Run() {
 			j := jobs[i]
 			var post *State
 			expand := true
-			if j.st.Op == "run" {
-				r, p, err := c.SB.Exec(j.n.State, x.Bin, append(append([]string{}, x.Spec.Env...), j.st.Env...), j.st.Args...)
+			preNode := j.n
+			last := j.st
+			if j.st.Op == "seq" {
+				// execute all but the last sub-step, then treat the last one as the step
+				subs := flatten(j.st.Sub)
+				cur := j.n.State
+				for _, sub := range subs[:len(subs)-1] {
+					if sub.Op == "run" {
+						_, p, err := c.SB.Exec(cur, x.Bin, append(append([]string{}, x.Spec.Env...), sub.Env...), sub.Args...)
+						if err != nil {
+							harnessFatal("exec: %v", err)
+						}
+						cur = p
+						atomic.AddInt64(&x.Transitions, 1)
+					} else {
+						cur = ApplyEnv(cur, sub)
+					}
+				}
+				preNode = &Node{State: cur, Parent: j.n, Via: Seq(subs[:len(subs)-1]...), Depth: j.n.Depth, Seed: j.n.Seed}
+				last = subs[len(subs)-1]
+				last.Tags = append(append([]string{}, last.Tags...), j.st.Tags...)
+			}
+			if last.Op == "run" {
+				r, p, err := c.SB.Exec(preNode.State, x.Bin, append(append([]string{}, x.Spec.Env...), last.Env...), last.Args...)
 				if err != nil {
 					harnessFatal("exec: %v", err)
 				}
@@ -405,7 +453,7 @@ func (x *Explorer) Run() {
 					vs = append(vs, Violation{Oracle: "terminates", Command: j.st.Cmd(), Tags: j.st.Tags, Detail: "timeout"})
 					expand = false
 				} else if x.Spec.CheckTrans != nil {
-					vs, expand = x.Spec.CheckTrans(c, j.n, j.st, r, post)
+					vs, expand = x.Spec.CheckTrans(c, preNode, last, r, post)
 				}
 				x.mu.Lock()
 				x.Outcomes[j.st.Cmd()+":"+cls]++
@@ -415,7 +463,7 @@ func (x *Explorer) Run() {
 				x.mu.Unlock()
 				x.addViolations(vs, j.n, &j.st)
 			} else {
-				post = ApplyEnv(j.n.State, j.st)
+				post = ApplyEnv(preNode.State, last)
 				atomic.AddInt64(&x.Transitions, 1)
 			}
 			if !expand {
